@@ -6,6 +6,7 @@ use xplore::{explore, sweep, Config, Verdict};
 
 mod c19;
 mod notified;
+mod statesvc;
 
 use c19::{RtKind, Sched, Spec};
 
@@ -142,6 +143,29 @@ fn c07_child(tier: &str) -> i32 {
     0
 }
 
+/// C10 with the reply streams the library itself provides (`notified::State` / `Once` of zlink-tokio
+/// and zlink-smol) behind the real `Server::run` (child of the C10 check).  Prints one JSON line.
+fn c10_child(tier: &str) -> i32 {
+    use statesvc::{StateScen, B};
+    let cfg = Config { max_wall: std::time::Duration::from_secs(tier_pick(tier, 60, 900)), budget: 1, ..Default::default() };
+    let th = tier == "thorough";
+    let mut phases = Vec::new();
+    for smol in [false, true] {
+        let name = if smol { "smol" } else { "tokio" };
+        let plans = vec![
+            (format!("{name}/notified-state-service/<=2conns/4events"), StateScen { smol, max_conns: 2, max_events: 4, bursts: vec![B::Watch, B::Get, B::Sets(1), B::Sets(2), B::Sets(9), B::Sets(12), B::OnceGet], delay_polls: true }),
+            (format!("{name}/notified-state-service/<=3conns/{}events", if th { 5 } else { 4 }), StateScen { smol, max_conns: 3, max_events: if th { 5 } else { 4 }, bursts: vec![B::Watch, B::Sets(1), B::Sets(10), B::OnceGet], delay_polls: th }),
+        ];
+        for (pname, h) in plans {
+            let st = explore(&pname, h.to_json(), &h, &cfg);
+            eprintln!("[C10 child] phase {pname}: {} executions, {} violation classes, {:.1}s", st.evals, st.violations.len(), st.wall);
+            phases.push(st);
+        }
+    }
+    println!("{}", xplore::report::child_json(&phases, "C19"));
+    0
+}
+
 fn run_c20(tier: &str) -> i32 {
     let mut rep = Report::new("C20", tier);
     rep.rule = "DFS over every operation sequence of up to N operations over {set(fresh value), subscribe (<=3), poll(subscriber i), clone the state handle, drop a state handle}, each run against zlink_tokio::notified and zlink_smol::notified on one thread with hand-polled streams; plus the 4 one-shot scenarios x 2 crates. Distinct = distinct observation logs".into();
@@ -224,6 +248,14 @@ fn replay(path: &str) -> i32 {
                 }))
             }
         }
+    } else if prop == "C19" && v["harness"]["state_service"] == true {
+        match statesvc::StateScen::from_json(&v["harness"]) {
+            Some(s) => xplore::replay(&s, budget, &choices),
+            None => {
+                eprintln!("MACHINERY: cannot rebuild the state-service harness");
+                return 2;
+            }
+        }
     } else if prop == "C19" {
         match Spec::from_json(&v["harness"]) {
             Some(s) => xplore::replay(&Sched(s), budget, &choices),
@@ -265,6 +297,7 @@ fn main() {
         Some("c19") => run_c19(&tier),
         Some("c20") => run_c20(&tier),
         Some("c07-child") => c07_child(&tier),
+        Some("c10-child") => c10_child(&tier),
         Some("--replay") => replay(args.get(1).map(|s| s.as_str()).unwrap_or("")),
         _ => {
             eprintln!("usage: sockets c19|c20 [--tier quick|thorough] | --replay <file>");
